@@ -7,8 +7,8 @@ D=${1:-/repo}
 T=${2:-$D/target}
 cd "$D" || exit 2
 export CARGO_NET_OFFLINE=true CARGO_TARGET_DIR="$T"
-rm -f "$T"/nextest/pb/junit.xml; cargo nextest run --workspace --no-fail-fast --tool-config-file pb:/w/lib/nextest.toml --profile pb --test-threads 8 --offline >"$T/nextest.log" 2>&1
-J=$(ls "$T"/nextest/pb/junit.xml 2>/dev/null)
+rm -f "$T"/nextest/pb/junit.xml "$D"/target/nextest/pb/junit.xml; cargo nextest run --workspace --no-fail-fast --tool-config-file pb:/w/lib/nextest.toml --profile pb --test-threads 8 --offline >"$T/nextest.log" 2>&1
+J=$(ls "$T"/nextest/pb/junit.xml "$D"/target/nextest/pb/junit.xml 2>/dev/null | head -1)
 python3 - "$J" <<'P'
 import sys,json,xml.etree.ElementTree as ET
 base=set(json.load(open('/root/.vp/BASELINE.json'))['stable_pass'])
